@@ -403,6 +403,25 @@ class RefInst:
                             break
                 if pending is not None:
                     continue
+                for xs in rule.get("xsends") or []:
+                    tgt = self.ref.insts.get(xs["inst"])
+                    if tgt is None:
+                        continue
+                    ner = {"event": xs["event"], "args": list(xs.get("args") or []),
+                           "kwargs": self._fwd(xs, er, c)}
+                    tgt.epoch = self.epoch
+                    saved = tgt.depth
+                    is_async_cb = bool(self.rp.prog["cbs"][c].get("async"))
+                    tgt.depth = self.depth + (0 if is_async_cb else 1)
+                    xex = []
+                    try:
+                        r = tgt.send(ner, xex)
+                    finally:
+                        tgt.depth = saved
+                    nx = xex[0] if xex else {}
+                    mem.setdefault("xnested", []).append({"inst": xs["inst"], "execs": xex,
+                                                          "state": tgt.state})
+                    mem["nsret"].append(["ret", r, nx.get("nb") if len(nx.get("vals") or []) >= 2 else None])
                 if rule.get("raise"):
                     if not self.rtc:
                         for c2 in cbids:
